@@ -248,6 +248,8 @@ def _value_is_name_passthrough(v: ast.AST, name: str) -> bool:
         return any(_value_is_name_passthrough(x, name) for x in v.values)
     if isinstance(v, ast.IfExp):
         return _value_is_name_passthrough(v.body, name) or _value_is_name_passthrough(v.orelse, name)
+    if isinstance(v, (ast.Tuple, ast.List)):
+        return any(_value_is_name_passthrough(x, name) for x in v.elts)
     return False
 
 
